@@ -376,6 +376,9 @@ class MinMaxAggregator:
 
     def _chain_translation(self, rule: AST, agg: AST) -> list[AST]:
         """translate a single elemented min/max aggregate to chaining rules"""
+        if agg.sign != Sign.NoSign:
+            log.info(f"Cannot translate {loc2str(agg.location)} as negated min/max aggregates are not supported.")
+            return [rule]
         if len(agg.atom.elements) > 1:
             log.info(
                 f"Cannot translate {loc2str(agg.location)} as multiple elements "
